@@ -319,6 +319,11 @@ example : ∃ r m', swap (.level 0) (.level 1) true exM = (.ok r, m') ∧ SwapPo
 example : IsDep exM.tbl 0 4 ∧ 0 < exExt 4 := by
   refine ⟨⟨⟨0, -1, 3⟩, by decide, rfl, Or.inr (by decide)⟩, by decide⟩
 
+/-- sifting the example manager (two variables, held node 4) returns normally -/
+example : ∃ m', reorder none exM = (.ok (), m') ∧ ReorderInv exExt m' ∧ ReorderRel exExt exM m' := by
+  obtain ⟨m', a, b, _, _, d⟩ := C07_sift_total exExt exM exM_reorderInv (by decide) (by decide)
+  exact ⟨m', a, b, d⟩
+
 /-- a requested order for the example: `b` first -/
 example : ReqOrder [("a", 1), ("b", 0)] exM := by
   have h0 : exM.tbl.l2v[0]? = some "a" := by decide
